@@ -223,7 +223,7 @@ fn push_minbin(out: &mut Bits, e: En, x: u128, u: u128) {
     if x < short {
         push_field(out, e, x, (s - 1) as usize);
     } else {
-        let y = x - u + (1u128 << s);
+        let y = x + (1u128 << s) - u;
         // s bits; high s-1 bits first, then the lowest bit
         push_field(out, e, y >> 1, (s - 1) as usize);
         out.push((y & 1) as u8);
